@@ -107,6 +107,13 @@ def gen_family_op(r, fam, o, op, maxn, gen_slice):
 
 
 class FamilyMixin:
+    def self_mask_positions(self, code, n, ln):
+        """ln of the n positions, chosen by code: the selection of a purpose-made masked reference of the destination"""
+        x, cand, pos = (code * 2654435761) % (1 << 32), list(range(n)), []
+        for _ in range(ln):
+            x = (x * 1103515245 + 12345) % (1 << 31)
+            pos.append(cand.pop((x >> 8) % len(cand)))
+        return sorted(pos)
     # ================================================================ FixedMatrix =====================
     def m_vals(self, h):
         return [[h.store.vals[(r * h.cols + c)] for c in range(h.cols)] for r in range(h.rows)]
@@ -879,7 +886,15 @@ class FamilyMixin:
         # one time in three the source is a live variable array - possibly the destination itself or another view of its
         # storage (va[::-1] = va): as on a list, the right-hand side is read before anything is written
         o = self.pick(op["h"] // 3, lambda x: x.kind == "varr" and x.vtype == h.vtype and len(x.idx) == cnt) if op["k"] % 3 == 0 else None
-        if o is not None:
+        if o is None and op["k"] % 3 == 1 and not h.masked and 0 < cnt <= n:
+            # ... or a masked reference of the destination itself, made for the purpose (va[::2] = va[mask])
+            pos = self.self_mask_positions(op["h"], n, cnt)
+            o = h
+            src = h.real[self.make_mask([1 if k in pos else 0 for k in range(n)])]
+            svals = [list(h.store.vals[h.idx[k]].vals) for k in pos]
+            self.inc("probe.assign_source_is_masked_reference_of_destination")
+            self.sig_ctx = ("varray-setitem-items-source-shares-storage", h.hkind(), h.vtype)
+        elif o is not None:
             src = o.real
             svals = [list(o.store.vals[o.idx[k]].vals) for k in range(cnt)]
             self.inc("probe.assign_from_live_handle")
@@ -1250,7 +1265,15 @@ class FamilyMixin:
         # one time in three the source is a live string array - possibly the destination itself or another view of its
         # storage (sa[::-1] = sa): as on a list, the right-hand side is read before anything is written
         o = self.pick(op["h"] // 3, lambda x: x.kind == "str" and x.tname == h.tname and len(x.idx) == ln) if op["k"] % 3 == 0 else None
-        if o is not None:
+        if o is None and op["k"] % 3 == 1 and not h.masked and 0 < ln <= n:
+            # ... or a masked reference of the destination itself, made for the purpose (sa[::2] = sa[mask])
+            pos = self.self_mask_positions(op["h"], n, ln)
+            o = h
+            src = h.real[self.make_mask([1 if k in pos else 0 for k in range(n)])]
+            sv = [h.store.vals[h.idx[k]] for k in pos]
+            self.inc("probe.assign_source_is_masked_reference_of_destination")
+            self.sig_ctx = ("string-setitem-array-source-shares-storage", h.hkind(), h.tname)
+        elif o is not None:
             src = o.real
             sv = [o.store.vals[k] for k in o.idx]
             self.inc("probe.assign_from_live_handle")
